@@ -11,10 +11,13 @@
 package main
 
 import (
+	"bytes"
 	"context"
 	"encoding/base64"
 	"fmt"
+	"io"
 	"math/rand"
+	"net/http/httptest"
 	"os"
 	"path/filepath"
 	"sort"
@@ -667,6 +670,129 @@ func expiry(r *vh.Run, i int) {
 	_ = os.Getpid
 }
 
+type pipeBody struct {
+	r *io.PipeReader
+}
+
+func (p *pipeBody) Read(b []byte) (int, error) { return p.r.Read(b) }
+func (p *pipeBody) Close() error               { return p.r.Close() }
+
+// inflight: family 4 - the session ends (cancel, eviction, expiry) while the body of its completing PUT is still
+// being sent; the rest of the body is further use of a session that has ceased to exist: the PUT must not be
+// acknowledged and the content must not become a blob.
+func inflight(r *vh.Run, i int) {
+	rng := r.Rand(850_000 + i)
+	kind := []vh.StoreKind{vh.Mem, vh.Dir}[i%2]
+	how := []string{"cancel", "evict", "expire"}[(i/2)%3]
+	root := ""
+	if kind == vh.Dir {
+		root = r.TempDir("c08f")
+		defer vh.RemoveAll(root)
+	}
+	p := vh.Neutral
+	if how == "expire" {
+		p.Grace = 60 * time.Millisecond
+	}
+	c := vh.Conf(kind, root, p)
+	if how == "evict" {
+		c.Storage.GC.RepoUploadMax = 2
+	}
+	srv := vh.New(c)
+	defer srv.Close()
+	wit := map[string]any{"trial": i, "store": kind.String(), "session_ended_by": how}
+	rs := vh.Do(srv, vh.Req{Method: "POST", URL: "/v2/f/blobs/uploads/"})
+	loc := rs.H.Get("Location")
+	if rs.Status != 202 || loc == "" {
+		return
+	}
+	path, id := pathOf(loc), idOf(loc)
+	part1 := []byte(fmt.Sprintf("part one %d;", i))
+	part2a := bytes.Repeat([]byte("a"), 100+rng.Intn(4000))
+	part2b := []byte(fmt.Sprintf(";the rest %d", i))
+	if ps := vh.Do(srv, vh.Req{Method: "PATCH", URL: loc, Body: part1}); ps.Status != 202 {
+		return
+	}
+	full := append(append(append([]byte{}, part1...), part2a...), part2b...)
+	d := vh.DigestOf("sha256", full)
+	pr, pw := io.Pipe()
+	req := httptest.NewRequest("PUT", path+"?state="+state(int64(len(part1)))+"&digest="+d, &pipeBody{r: pr})
+	req.ContentLength = -1
+	done := make(chan int, 1)
+	go func() {
+		w := httptest.NewRecorder()
+		srv.ServeHTTP(w, req)
+		done <- w.Result().StatusCode
+	}()
+	_, _ = pw.Write(part2a)
+	// wait until the handler has stored what was sent so far (hook listing does not refresh the session)
+	stored := false
+	for k := 0; k < 400 && !stored; k++ {
+		g := vh.Do(srv, vh.Req{Method: "GET", URL: path})
+		if g.Status == 204 && g.H.Get("Range") == fmt.Sprintf("0-%d", len(part1)+len(part2a)-1) {
+			stored = true
+		} else {
+			time.Sleep(2 * time.Millisecond)
+		}
+	}
+	if !stored {
+		_ = pw.Close()
+		<-done
+		r.Count("inflight_trials_not_established", 1)
+		return
+	}
+	gone := func() bool {
+		ids, _ := srv.VerifUploads(context.Background(), "f")
+		for _, x := range ids {
+			if x == id {
+				return false
+			}
+		}
+		return true
+	}
+	switch how {
+	case "cancel":
+		vh.Do(srv, vh.Req{Method: "DELETE", URL: path})
+	case "evict":
+		for k := 0; k < 4; k++ {
+			vh.Do(srv, vh.Req{Method: "POST", URL: "/v2/f/blobs/uploads/"})
+			time.Sleep(2 * time.Millisecond)
+		}
+	}
+	ended := false
+	for k := 0; k < 600 && !ended; k++ {
+		if gone() {
+			ended = true
+		} else {
+			time.Sleep(5 * time.Millisecond)
+		}
+	}
+	if !ended {
+		_ = pw.Close()
+		<-done
+		r.Count("inflight_trials_session_survived", 1)
+		return
+	}
+	_, _ = pw.Write(part2b)
+	_ = pw.Close()
+	var st int
+	select {
+	case st = <-done:
+	case <-time.After(60 * time.Second):
+		r.Inconclusive("PUT with a held body did not return within 60 s")
+		return
+	}
+	r.Count("inflight_trials", 1)
+	r.Distinct("inflight_cells", how+"/"+kind.String())
+	wit["put_status"] = st
+	if st == 201 {
+		r.Violation("ended-session-completed:"+how, fmt.Sprintf("the session was ended (%s) while the body of its PUT was in flight; the rest of the body was accepted and the PUT acknowledged with 201 (%s store)", how, kind), wit)
+		return
+	}
+	if g := vh.Do(srv, vh.Req{Method: "HEAD", URL: "/v2/f/blobs/" + d}); g.Status == 200 {
+		r.Violation("ended-session-became-blob:"+how, fmt.Sprintf("the content of a session ended (%s) mid-request is retrievable as a blob (%s store)", how, kind), wit)
+	}
+}
+
 func main() {
 	r := vh.Start()
 	np := r.N(200, 8000)
@@ -674,14 +800,19 @@ func main() {
 	ne := r.N(32, 600)
 	vh.Parallel(np, 16, func(i int) { protocol(r, i) })
 	// timing sensitive families run with less parallelism
-	vh.Parallel(nb+ne, 8, func(i int) {
-		if i < nb {
+	nf := r.N(36, 900)
+	vh.Parallel(nb+ne+nf, 8, func(i int) {
+		switch {
+		case i < nb:
 			bound(r, i)
-		} else {
+		case i < nb+ne:
 			expiry(r, i-nb)
+		default:
+			inflight(r, i-nb-ne)
 		}
 	})
-	r.Count("cases", np+nb+ne)
+	r.Require("inflight_trials", int64(nf/2))
+	r.Count("cases", np+nb+ne+nf)
 	r.Require("sessions", int64(np*3))
 	r.Require("refused_chunk_checks", 500)
 	r.Require("conservation_checks", 5000)
